@@ -24,7 +24,7 @@ def rule_range(ctx, tab, rule="R1"):
         ctx.ob(rule, "range/" + r.label, ok,
                "the position handed on must lie in [0,1] (cycle duration D finite > 0, finite time): %s is in %s"
                % (show(r.pos), iv), tab["body"]["span"], trace_of(r.path), what="position-out-of-range")
-    ctx.floor(rule, "feasible Active/Ended rows of get_position", n, 20)
+    ctx.floor(rule, "feasible Active/Ended rows of get_position", n, 6)
 
 
 def rule_mirror(ctx, tab, rule="R2"):
@@ -63,7 +63,7 @@ def rule_mirror(ctx, tab, rule="R2"):
                 ctx.ob(rule, "rise-linear/%s" % key, pr == terms.p_mul(terms.p_const(2), terms.p_atom(Rm)),
                        "rising branch of a reversing cycle must be 2r, is %s" % terms.p_show(pr), tab["body"]["span"],
                        what="rise-not-2r")
-    ctx.floor(rule, "rising/falling pairs", n, 2)
+    ctx.floor(rule, "rising/falling pairs", n, 1)
     # forward rows: the position is the ratio itself
     for r in tab["rows"]:
         if r.kind == "Active" and r.reverse == 0 and not r.env.infeasible:
@@ -166,7 +166,7 @@ def rule_duration_formula(ctx, rule="R4", tab=None, adt=TT.TS):
                    "position becomes terminal when time-since-delay exceeds %s, but the reported total duration is %s "
                    "(must be delay + that)" % (terms.p_show(thr), terms.p_show(dur)), tab["body"]["span"],
                    what="end-threshold-differs-from-duration")
-    ctx.floor(rule, "Ended rows with finite repeat", n, 4)
+    ctx.floor(rule, "Ended rows with finite repeat", n, 2)
     for r in tab["rows"]:
         if r.repeat == "Infinite":
             ctx.ob(rule, "never-ended/" + r.label, r.kind != "Ended", "an infinitely repeating timeline never ends",
